@@ -80,6 +80,10 @@ def faults(rng, base_decls):
         f.append(("loop-value", "%s:%s" % (ty, bad), "for %s m_ in [%s]\n    G(m_) | 0\n" % (ty, bad)))
         good = {"int": "1", "float": "0.5", "str": '"s"', "bool": "True"}[ty]
         f.append(("loop-value", "%s:%s:after-good" % (ty, bad), "for %s m_ in %s, %s\n    G(m_) | 0\n" % (ty, good, bad)))
+    # a value of the wrong type that EQUALS an earlier listed value (1+0j == 1.0 and hash alike in Python)
+    for ty, goods, bad in (("float", "1.0", "1+0j"), ("int", "0, 2", "2+0j"), ("int", "3, 0, 1", "0j"), ("float", "0.5, 2.0", "2+0j"),
+                           ("int", "2", "2.5 - 0.5 + 0j"), ("float", "0.0", "0j")):
+        f.append(("loop-value", "%s:%s:equal-to-earlier" % (ty, bad), "for %s m_ in [%s, %s]\n    G(m_) | 0\n" % (ty, goods, bad)))
     return f
 
 
@@ -171,9 +175,11 @@ def run(ctx):
             if msg:
                 ctx.violation("fault %s/%s: %s" % (cls, slot, msg),
                               {"kind": "fault", "cls": cls, "text": text, "ident": ident, "span": span})
-        # undefined name in a metadata option
-        for kw in ("target", "type"):
-            text = "name f\nversion 1.0\n\n%s dev (opt=%s)\n\nG | 0\n" % (kw, UNDEF)
+        # undefined name in a metadata option, keyword or positional (positional options are ignored with a
+        # warning, but an undefined name in one is an undefined name)
+        for kw, opt in (("target", "opt=%s"), ("type", "opt=%s"), ("target", "%s, opt=1"), ("type", "2*%s"),
+                        ("target", "1, %s + 1, opt=3"), ("type", "a=1, b=[2, %s]")):
+            text = "name f\nversion 1.0\n\n%s dev (%s)\n\nG | 0\n" % (kw, opt % UNDEF)
             ctx.case(text)
             ctx.count("undefined")
             ctx.count("slot:undefined:metadata-option")
@@ -220,3 +226,5 @@ def run(ctx):
     finally:
         os.chdir(old)
         shutil.rmtree(root, ignore_errors=True)
+    # interaction stream (harness/interact.py): the executable model is the oracle
+    common.interaction_stream(ctx, ctx.n(200, 2500))
